@@ -54,6 +54,10 @@ def run(ctx):
     balance_rule(ctx, "C09.R1")
     bestmove_rule(ctx, "C09.R2")
     r4_flags_and_iterations(ctx)
+    from . import c07_struct
+    c07_struct.r7_first_result_kept(ctx, rid="C09.R6", interrupted_only=True)
+    from . import hashparity
+    hashparity.run(ctx, "C09.R7")
     # the per-go node counter also paces the message / time poll (every 100,000 nodes): a counter that is not restarted
     # by every go makes a later go poll - and abort - at its first node (shared with C16.R4)
     from . import c16
